@@ -81,6 +81,11 @@ main(void) {
 			budget = strtoul(h_line + 1, NULL, 10);
 			continue;
 		}
+		if (h_line[0] == 'c') { /* does the selected table list compile? prints "C <0|1>" */
+			printf("C %d\n", lou_getTable(tl) != NULL);
+			fflush(stdout);
+			continue;
+		}
 		if (h_line[0] != 'X') continue;
 		{
 			char fn;
